@@ -13,18 +13,41 @@ from layout import mutate, VOCAB, relayout
 S = Sym
 PROPERTY = 'C07'
 PROPS_MODULES = ['C07', 'C07b', 'C07c']
-ASSUMPTIONS = ['termination is observed (every call returned within the run), bounded nesting depth (generated texts nest at most ~12 levels)',
+ASSUMPTIONS = ['termination is observed (every call returned within a 10 s budget; a call that does not is interrupted and reported), bounded nesting depth (generated texts nest at most ~12 levels)',
                'Lark itself is not modelled: its exceptions are only classified (HplSyntaxError wraps UnexpectedToken/UnexpectedCharacters)']
 DOCUMENTED = {'ok', 'syntax', 'sanity', 'type', 'value'}
 
 UNI = ['é', 'ß', '日本', ' ', '​', '﻿', '😀', 'x́', '\x00', '\x7f', '"', "'", '\\', '`', '$', '%', '&', ';', '?', '^', '|', '﻿', '٣', 'Ⅻ', ' ']
 
 
+TIME_BUDGET_S = 10.0     # per call; a parse of the generated texts takes milliseconds
+
+
+class _OverBudget(BaseException):
+    pass
+
+
+def _alarm(_signum, _frame):
+    raise _OverBudget()
+
+
 def outcome(parser, text):
+    """result class of one call, under a wall-clock budget: CPython's regex engine and Lark's loops check for signals, so a call
+    that does not come back (e.g. a token pattern that backtracks exponentially) is interrupted and reported as `timeout`"""
+    import signal
+    old = signal.signal(signal.SIGALRM, _alarm)
+    signal.setitimer(signal.ITIMER_REAL, TIME_BUDGET_S)
     try:
-        return 'ok', canon_str(dump_any(parser.parse(text)))
+        try:
+            return 'ok', canon_str(dump_any(parser.parse(text)))
+        finally:
+            signal.setitimer(signal.ITIMER_REAL, 0)
+    except _OverBudget:
+        return 'timeout', None
     except Exception as e:
         return classify_exception(e), None
+    finally:
+        signal.signal(signal.SIGALRM, old)
 
 
 def run(ctx):
@@ -93,6 +116,12 @@ def run(ctx):
         texts.append(('predicate', '{' + 'not ' * d + 'b}', 'nested'))
         texts.append(('expression', 'x' + '[0]' * d + ' = 1', 'nested'))
 
+    # unterminated string literals of growing length (a string token pattern that backtracks makes rejection time explode)
+    for k in (8, 30, 60, 200):
+        texts.append(('expression', 's = "' + 'a' * k, 'unterminated-string'))
+        texts.append(('predicate', '{s = "' + 'ab ' * (k // 3) + '}', 'unterminated-string'))
+        texts.append(('property', 'globally: no a {s = "' + 'x' * k + '}', 'unterminated-string'))
+        texts.append(('specification', '# title: "' + 'some text ' * (k // 10 + 1) + '\nglobally: no a', 'unterminated-string'))
     violations, disagreements = [], []
     lines = []
     res = []
@@ -101,6 +130,10 @@ def run(ctx):
         cls, dumped = outcome(parsers[entry], t)
         res.append((cls, dumped))
         stats[(kind, cls.split(':')[0])] = stats.get((kind, cls.split(':')[0]), 0) + 1
+        if cls == 'timeout':
+            violations.append({'input': {'entry': entry, 'text': t}, 'impl': cls,
+                               'what': f'parse_{entry} did not return within {TIME_BUDGET_S:.0f} s on a text of {len(t)} characters', 'signature': 'does-not-terminate'})
+            continue
         if cls.split(':')[0] not in DOCUMENTED:
             violations.append({'input': {'entry': entry, 'text': t}, 'impl': cls, 'what': f'parse_{entry} failed with an undocumented error ({cls})', 'signature': 'undocumented:' + cls})
         if entry != 'condition':
